@@ -616,3 +616,34 @@ Print Assumptions C16_source_image_stage.
 (* the list-method example package is inside the hypotheses of C16_full / C16_full_lists / C16_full_declarative *)
 Example C16_example_list_valid : valid_package ex_snake ex_list_pkg.
 Proof. apply valid_package_b_sound. vm_compute. reflexivity. Qed.
+
+(* ---- what a list method exposes, against a declarative reading (proofs/PipelineWalkSpecProofs.v) -------------
+   walked g k anc path q t: the property path q (type t) is reached from schema k by a chain of properties through
+   object / oneof references, no schema being entered again while it is being walked higher up on the same chain.
+   The model of walkSchemaFields reports exactly these; the root of a list request is the item object of the ONE
+   array property of the response (single_object_array). With C16_full: the cm_list of every declared list method
+   is the set of walked paths of that item object in the client view of the schema environment (cenv). *)
+From J5V.proofs Require Import PipelineWalkSpecProofs.
+
+Theorem C16_walk_fields_spec : forall fuel g k anc path l,
+  walk_fields fuel g k anc path = Ok l -> forall q t, In (q, t) l <-> walked g k anc path q t.
+Proof. exact walk_fields_spec. Qed.
+Print Assumptions C16_walk_fields_spec.
+
+Theorem C16_list_root_spec : forall resp root, list_root resp = Ok root ->
+  exists ps, resp = Some ps /\ single_object_array ps root.
+Proof. exact list_root_spec. Qed.
+Print Assumptions C16_list_root_spec.
+
+Theorem C16_declared_list_spec : forall g svc d l, cm_list (declared_client g svc d) = Some l ->
+  is_query_request (df_req d) = true
+  /\ exists ps root, df_resp d = Some ps /\ single_object_array ps root
+       /\ forall q t, In (q, t) l <-> walked (cenv g) root [] [] q t.
+Proof. intros g svc d l. exact (declared_list_spec g d l). Qed.
+Print Assumptions C16_declared_list_spec.
+
+Example C16_example_walked :
+  exists l, cm_list (declared_client (im_schemas (compile_image ex_snake ex_list_pkg)) (bytes_of "Foo")
+                       (hd {| df_name := []; df_verb := 0; df_parts := []; df_req := []; df_resp := None |} (all_methods ex_list_pkg))) = Some l
+            /\ l <> [].
+Proof. eexists. split; [vm_compute; reflexivity|discriminate]. Qed.
